@@ -282,6 +282,7 @@ def run(argv):
                 chk.traces += 1
     late_override_check(chk, models)
     constants_check(chk)
+    grain_density_check(chk)
     # user overrides given on the command line (project with an element-replacement table, ices of replaced elements): the
     # rendered rate constants must be those of the API rendering with the same tables
     from . import c20
@@ -322,6 +323,54 @@ def late_override_check(chk, models):
                           fresh_reaction=fresh[:200])
         elif first == fresh:
             chk.hist["late-override-without-effect"] += 1
+
+
+def grain_density_check(chk):
+    """Every accretion, recombination and surface rate of the hh93 family is proportional to (or divided by) `gdens`, which the
+    generated EvalRates computes from the abundances when the network carries the grains as species: it has to be the sum over
+    *all* grain species of the network, whatever their charge."""
+    import re
+    from naunet.network import Network
+    from .poly import poly_of_text, Poly
+    from .rendering import render
+    lines = [netgen.leeds_line(1, ["HCO+", "GRAIN-"], ["H", "CO", "GRAIN0"], rtype=6), netgen.leeds_line(2, ["e-", "GRAIN0"], ["GRAIN-"], rtype=20),
+             netgen.leeds_line(3, ["H", "H"], ["H2"]), netgen.leeds_line(4, ["CO"], ["GCO"], rtype=7), netgen.leeds_line(5, ["GCO"], ["CO"], rtype=8),
+             netgen.leeds_line(6, ["H+", "GRAIN-"], ["H", "GRAIN0"], rtype=6), netgen.leeds_line(7, ["C+", "GRAIN0"], ["C", "GRAIN+"], rtype=6)]
+    f = chk.scratch / "grains.leeds"
+    f.write_text("\n".join(lines) + "\n")
+    for model in ("hh93", "hh93i", ""):
+        try:
+            with silenced():
+                from naunet.species import Species
+                Species.reset()
+                net = Network(filelist=[str(f)], fileformats=["leeds"], grain_model=model,
+                              species_kwargs={"grain_symbol": "GRAIN", "surface_prefix": "G", "bulk_prefix": "@"})
+                grains_truth = sorted(sp.alias for sp in net.species if sp.name.startswith("GRAIN"))
+                path = chk.scratch / f"grains-render-{model or 'base'}"
+                render(net, "dense", path)
+        except Exception as e:
+            chk.hist["grain-density-refused:" + type(e).__name__] += 1
+            continue
+        body = cparse.function_body((path / "src" / "naunet_rates.cpp").read_text(), "EvalRates")
+        m = re.search(r"\brealtype\s+gdens\s*=\s*([^;]+);", body)
+        chk.count(("gdens", model), nontrivial=True)
+        chk.hist["grain-density"] += 1
+        if not m or "->" in m.group(1):
+            chk.violation({"kind": "grain-density", "model": model or "base"}, "a network that carries its grains as species does not compute "
+                          "`gdens` from their abundances", input={"model": model, "grain_species": grains_truth})
+            continue
+        want = Poly()
+        for a in grains_truth:
+            want = want + Poly.atom(f"y[IDX_{a}]")
+        try:
+            got = poly_of_text(m.group(1))
+        except Exception:
+            got = None
+        if got != want:
+            chk.violation({"kind": "grain-density", "model": model or "base"},
+                          f"`gdens = {m.group(1).strip()}` is not the total density of the grain species {grains_truth}: every rate that "
+                          f"scales with the grain density (accretion, recombination on grains, surface reactions) is off by the missing "
+                          f"fraction", input={"model": model, "reactions": lines[:3], "grain_species": grains_truth})
 
 
 def constants_check(chk):
